@@ -52,6 +52,14 @@ def gen_cases(tier: str, rng: random.Random) -> List[dict]:
                               "maxlist": ml, "named_args": na, "named_kwargs": False,
                               "args": [{"name": "a", "kind": k, "size": sz}, {"name": "b", "kind": "str", "size": 5 * ms}],
                               "order": [2, 1], "role": "pre"})
+    # a quantifier with nested loops that bind the same target name twice (the `_` idiom): the example lines keep the
+    # order of first appearance in every process
+    for default_repr, ms, ml in limits:
+        for order in ([1, 2], [2, 1]):
+            cases.append({"mid": len(cases) + 1, "flavour": "quant2", "default_repr": default_repr, "maxstring": ms,
+                          "maxlist": ml, "named_args": False, "named_kwargs": False,
+                          "args": [{"name": "a", "kind": "list", "size": 1}, {"name": "b", "kind": "list", "size": 1}],
+                          "order": order, "role": "pre"})
     return cases
 
 
